@@ -291,7 +291,7 @@ def corpus():
                                                            d(["img", "b"]), d(["filler", ["text", "x"], "top"]), E]))
     # exhaustion of the z-index range
     for zs in (2**31 - 1, -(2**31 - 1), 2**31):
-        cases.append({"term": "kitty", "ksup": True, "size": [16, 6], "z_start": zs, "slots": {"a": K0},
+        cases.append({"term": "kitty", "ksup": True, "size": [16, 6], "z_start": zs, "slots": {"a": K0 if zs != 2**31 else B},
                       "steps": [S, {"op": "new", "slot": "b", "spec": K0}, {"op": "new", "slot": "c", "spec": K0},
                                 d(["cols", [[["weight", 1], ["img", "a"]], [["weight", 1], ["fill", "."]]]]),
                                 {"op": "del", "slot": "a"}, d(["fill", "."]), {"op": "new", "slot": "d", "spec": K0},
